@@ -18,6 +18,10 @@ from common import Case, RecMem, device_classes, gen_case, run_driver, widths
 ID = 'C04'
 LEAN_MODULES = ['Py65.Props.C04', 'Py65.Props.C04b']
 NAMESPACES = ['Py65.Props.C04']
+# library helpers (CPython behaviour modelled in lean/Py65/Model/*Rt*.lean ...) that the generated code of these
+# modules calls, derived by scanning the Lean sources (harness/rtscan.py); validated against CPython on every run
+import rtcheck  # noqa: E402
+RT_HELPERS = rtcheck.helpers_for(LEAN_MODULES)
 LEVEL = 'proof'
 EXPECTED_THEOREMS = ['Py65.Props.C04.nmos_adc', 'Py65.Props.C04.nmos_sbc', 'Py65.Props.C04.cmos_acv',
                      'Py65.Props.C04.decimal_step_6502', 'Py65.Props.C04.decimal_step_65c02',
